@@ -75,20 +75,25 @@ def overpaid (p : Params) (r : Route) : Nat := delivered r - p.amount
 /-- mirrors Route::get_total_fees: path fees plus the value delivered in excess of the request -/
 def totalFees (p : Params) (r : Route) : Nat := overpaid p r + (r.map pathFee).sum
 
-/-- a hop may use channel direction `c` for `amt`: enabled, at least the minimum, not excluded -/
-def HopOK (p : Params) (c : Chan) (amt : Nat) : Prop :=
-  c.enabled = true ∧ c.htlcMin ≤ amt ∧ c.scid ∉ p.excluded
+/-- the router only uses channels for which BOTH directions have announced a policy
+    (gossip.rs ChannelInfo::as_directed_to / as_directed_from return `None` otherwise) -/
+def twoWay (g : Graph) (c : Chan) : Bool := (lookup g c.scid c.dst c.src).isSome
+
+/-- a hop may use channel direction `c` for `amt`: usable (both directions known), enabled, at least
+    the minimum, not excluded -/
+def HopOK (g : Graph) (p : Params) (c : Chan) (amt : Nat) : Prop :=
+  twoWay g c = true ∧ c.enabled = true ∧ c.htlcMin ≤ amt ∧ c.scid ∉ p.excluded
 
 /-- `path`, leaving node `src`, is a connected chain of existing, enabled channel directions ending at
     the payee; every hop carries at least its minimum; every forwarding node keeps at least the fee of
     the policy of the channel it forwards over, and at least that policy's CLTV delta. -/
 inductive ChainOK (g : Graph) (p : Params) : Nat → RPath → Prop
   | last (src : Nat) (h : RHop) (c : Chan) :
-      lookup g h.scid src h.node = some c → HopOK p c h.fee →
+      lookup g h.scid src h.node = some c → HopOK g p c h.fee →
       h.node = p.payee → p.finalCltv ≤ h.cltv →
       ChainOK g p src [h]
   | cons (src : Nat) (h h' : RHop) (t : RPath) (c c' : Chan) (f : Nat) :
-      lookup g h.scid src h.node = some c → HopOK p c (pathAmount (h :: h' :: t)) →
+      lookup g h.scid src h.node = some c → HopOK g p c (pathAmount (h :: h' :: t)) →
       lookup g h'.scid h.node h'.node = some c' →
       compute_fees (pathAmount (h' :: t)) c'.base c'.prop = some f → f ≤ h.fee →
       c'.cltv ≤ h.cltv →
@@ -156,19 +161,19 @@ structure RouteOK (g : Graph) (p : Params) (r : Route) : Prop where
 
 /-! ### the executable checker -/
 
-def hopOk (p : Params) (c : Chan) (amt : Nat) : Bool :=
-  c.enabled && decide (c.htlcMin ≤ amt) && !(p.excluded.contains c.scid)
+def hopOk (g : Graph) (p : Params) (c : Chan) (amt : Nat) : Bool :=
+  twoWay g c && c.enabled && decide (c.htlcMin ≤ amt) && !(p.excluded.contains c.scid)
 
 def chainOk (g : Graph) (p : Params) : Nat → RPath → Bool
   | _, [] => false
   | src, [h] =>
     match lookup g h.scid src h.node with
-    | some c => hopOk p c h.fee && decide (h.node = p.payee) && decide (p.finalCltv ≤ h.cltv)
+    | some c => hopOk g p c h.fee && decide (h.node = p.payee) && decide (p.finalCltv ≤ h.cltv)
     | none => false
   | src, h :: h' :: t =>
     match lookup g h.scid src h.node, lookup g h'.scid h.node h'.node with
     | some c, some c' =>
-      hopOk p c (pathAmount (h :: h' :: t)) &&
+      hopOk g p c (pathAmount (h :: h' :: t)) &&
       (match compute_fees (pathAmount (h' :: t)) c'.base c'.prop with
        | some f => decide (f ≤ h.fee)
        | none => false) &&
@@ -236,15 +241,15 @@ def recurrenceVerdict (g : Graph) (p : Params) (r : Route) : String :=
 /-! ### reference single-path search (for router failures) -/
 
 /-- channel direction usable for the bare requested amount -/
-def usable (p : Params) (c : Chan) : Bool :=
-  c.enabled && decide (c.htlcMin ≤ p.amount) && decide (p.amount ≤ c.limit) && !(p.excluded.contains c.scid)
+def usable (g : Graph) (p : Params) (c : Chan) : Bool :=
+  twoWay g c && c.enabled && decide (c.htlcMin ≤ p.amount) && decide (p.amount ≤ c.limit) && !(p.excluded.contains c.scid)
 
 /-- breadth-first reachability of the payee over usable directions (fees ignored) -/
 def bfs (g : Graph) (p : Params) : Nat → List Nat → List Nat → Bool
   | 0, _, _ => false
   | fuel + 1, visited, frontier =>
     if frontier.contains p.payee then true else
-    let next := ((g.filter (fun c => usable p c && frontier.contains c.src && !(visited.contains c.dst))).map (·.dst)).eraseDups
+    let next := ((g.filter (fun c => usable g p c && frontier.contains c.src && !(visited.contains c.dst))).map (·.dst)).eraseDups
     if next.isEmpty then false else bfs g p fuel (visited ++ next) next
 
 def singlePathExists (g : Graph) (p : Params) : Bool :=
